@@ -31,6 +31,7 @@ import (
 
 type stepper struct {
 	rng      *rand.Rand
+	dual     bool // this behaviour's stream states implement both stream interfaces (svc.DualState)
 	inst     []*vgirpc.HttpServer
 	hooks    []*svc.Hook
 	pipeSrv  *vgirpc.Server
@@ -140,6 +141,7 @@ func batchSizes() (buf, raw int64) {
 func (s *stepper) Begin(b replay.Behaviour, rng *rand.Rand) error {
 	a := b[0].Args
 	s.rng = rng
+	s.dual = rng.Intn(3) == 0
 	s.compress = replay.Bool(a, "compress")
 	s.debug = replay.Bool(a, "debug")
 	s.hookMode = replay.Str(a, "hook")
@@ -238,6 +240,8 @@ func (s *stepper) scriptOf(a map[string]any) svc.Script {
 	sc.Init = replay.Str(a, "init")
 	sc.Hdr = replay.Bool(a, "hdr")
 	sc.Turns = strs(replay.List(a, "turns"))
+	// one stream in three runs on a state type that implements both stream interfaces
+	sc.Dual = s.dual
 	return sc
 }
 
